@@ -137,27 +137,41 @@ def runLoop : List Instr → St → End
     | .inr e => e
     | .inl s' => if continues (s'.vm.sp - STACK_GUARD) then runLoop rest s' else .normal s'
 
+/-- `Pass::doAction`: `smap.highpassed(false)`, and the machine's `map` register starts at `smap[context]` -/
+def startCtx (ctx : Ctx) : Ctx := { ctx with highpassed := false, map := (ctx.context : Int) + 1 }
+
+/-- `is = *__map` -/
+def enterCtx (ctx : Ctx) : Ctx := { ctx with is := ctx.smap.getD ctx.map.toNat none }
+
+/-- a failed run: `smap.highwater(0)` -/
+def _root_.GrVerif.Seg.Ctx.clearHighwater (c : Ctx) : Ctx := { c with highwater := none, highpassed := false }
+
+/-- `*__map = is` -/
+def _root_.GrVerif.Seg.Ctx.storeIs (c : Ctx) : Ctx := { c with smap := c.smap.setIfInBounds c.map.toNat c.is }
+
+/-- what follows the interpreter loop: `*map = is`, the machine's epilogue, and the garbage collection of `findNDoRule` -/
+def finishAction (s : St) (deletes : Bool) : Except String (Int × Status × Option Nat × Ctx) :=
+  if ¬ (0 ≤ s.ctx.map ∧ s.ctx.map.toNat < s.ctx.smap.size) then .error "*map = is outside m_slot_map" else
+  let c := s.ctx.storeIs
+  match epilogue { s.vm with status := if c.status ≠ .finished then c.status else s.vm.status } with
+  | .error _ => .error "stack"
+  | .ok rs =>
+    if rs.2 ≠ .finished then .ok (rs.1, rs.2, none, c.clearHighwater)
+    else
+      let slotOut := c.smap.getD c.map.toNat none
+      if deletes then
+        let g := collectGarbage c slotOut
+        .ok (rs.1, rs.2, g.2, g.1)
+      else .ok (rs.1, rs.2, slotOut, c)
+
 /-- `Pass::doAction` + the garbage collection of `findNDoRule`: returns (ret, status, slot_out, final context) -/
 def doAction (is : List Instr) (deletes : Bool) (maxRef : Nat) (data : List Nat) (ctx : Ctx) : Except String (Int × Status × Option Nat × Ctx) :=
-  let ctx := { ctx with highpassed := false, map := (ctx.context : Int) + 1 }
+  let ctx := startCtx ctx
   -- `Code::run`: the furthest slot the code refers to must be in the map
   if ctx.size ≤ maxRef + ctx.context ∨ (ctx.smap.getD (maxRef + ctx.context + 1) none).isNone then
-    .ok (1, .slot_offset_out_bounds, none, { ctx with highwater := none, highpassed := false }) else
-  -- `is = *__map`
-  let ctx := { ctx with is := ctx.smap.getD ctx.map.toNat none }
-  match runLoop is { vm := initVm data, ctx := ctx } with
+    .ok (1, .slot_offset_out_bounds, none, ctx.clearHighwater) else
+  match runLoop is { vm := initVm data, ctx := enterCtx ctx } with
   | .fault w => .error w
-  | .normal s =>
-    -- `__map = map; *__map = is;`
-    if ¬ (0 ≤ s.ctx.map ∧ s.ctx.map.toNat < s.ctx.smap.size) then .error "*map = is outside m_slot_map" else
-    let c := { s.ctx with smap := s.ctx.smap.setIfInBounds s.ctx.map.toNat s.ctx.is }
-    match epilogue { s.vm with status := if c.status ≠ .finished then c.status else s.vm.status } with
-    | .error _ => .error "stack"
-    | .ok (ret, status) =>
-      if status ≠ .finished then .ok (ret, status, none, { c with highwater := none, highpassed := false })
-      else
-        let slotOut := c.smap.getD c.map.toNat none
-        let (c, slotOut) := if deletes then collectGarbage c slotOut else (c, slotOut)
-        .ok (ret, status, slotOut, c)
+  | .normal s => finishAction s deletes
 
 end GrVerif.Action
